@@ -4,6 +4,8 @@ import (
 	"context"
 	"os"
 	"testing"
+	"testing/synctest"
+	"time"
 
 	eth2client "github.com/attestantio/go-eth2-client"
 	eth2api "github.com/attestantio/go-eth2-client/api"
@@ -45,4 +47,59 @@ func TestReproNotSynced(t *testing.T) {
 	if err != nil || fall.calls != 1 {
 		t.Fatalf("syncing primary, healthy fallback: call failed (%v), fallback consulted %d times", err, fall.calls)
 	}
+}
+
+// deafStub ignores the request context: it answers only when released.
+type deafStub struct {
+	eth2wrap.Client
+	release chan struct{}
+}
+
+func (s *deafStub) Address() string { return "http://deaf" }
+func (s *deafStub) AttestationData(context.Context, *eth2api.AttestationDataOpts) (*eth2api.Response[*eth2p0.AttestationData], error) {
+	<-s.release // blocked on a mutex / in a DNS lookup / in a client that does not look at ctx
+
+	return &eth2api.Response[*eth2p0.AttestationData]{Data: &eth2p0.AttestationData{}}, nil
+}
+
+// TestReproCancelDeaf is the standalone reproduction of finding C19-cancel-waits-for-deaf-node (run with
+// VERIF_REPRO=1): provide() ranges over the join channel and looks at ctx.Err() only when a result arrives.  When every
+// running request of the stage ignores its context, cancelling the caller's context does not return the call: it
+// stays blocked until a node answers (here: one virtual hour later).
+func TestReproCancelDeaf(t *testing.T) {
+	if os.Getenv("VERIF_REPRO") == "" {
+		t.Skip("VERIF_REPRO not set")
+	}
+	synctest.Test(t, func(t *testing.T) {
+		node := &deafStub{release: make(chan struct{})}
+		m := eth2wrap.NewMultiForT([]eth2wrap.Client{node}, nil)
+		ctx, cancel := context.WithCancel(context.Background())
+		t0 := time.Now()
+		var (
+			err   error
+			retAt time.Duration
+			done  = make(chan struct{})
+		)
+		go func() {
+			defer close(done)
+			_, err = m.AttestationData(ctx, &eth2api.AttestationDataOpts{})
+			retAt = time.Since(t0)
+		}()
+		synctest.Wait()
+		cancel()
+		synctest.Wait() // every goroutine of the call is durably blocked now
+		returned := false
+		select {
+		case <-done:
+			returned = true
+		default:
+		}
+		time.Sleep(time.Hour)
+		close(node.release)
+		<-done
+		t.Logf("returned right after cancel: %v; returned at +%v with err=%v", returned, retAt, err)
+		if !returned {
+			t.Fatalf("cancelled call did not return until the stuck node was released (+%v)", retAt)
+		}
+	})
 }
